@@ -210,6 +210,12 @@ impl Server {
                             watched: conn.transaction_state.watched_keys.len(),
                             blocked_keys,
                             is_monitoring: conn.is_monitoring,
+                            watched_detail: {
+                                let mut w: Vec<(usize, Vec<u8>, u64)> = conn.transaction_state.watched_keys.iter()
+                                    .map(|((db, key), baseline)| (*db, key.clone(), *baseline)).collect();
+                                w.sort();
+                                w
+                            },
                         }
                     }) {
                         rows.push(row);
